@@ -17,6 +17,7 @@ import (
 	"os"
 	"strconv"
 	"strings"
+	"sync"
 	"time"
 
 	"com.tuntun.rangers/node/src/common"
@@ -59,6 +60,44 @@ type blockChainStub struct {
 
 func (b *blockChainStub) HasBlockByHash(hash common.Hash) bool { return false }
 
+// procChain is the block chain a finalising party talks to: it records the blocks handed to
+// AddBlockOnChain.
+type procChain struct {
+	core.BlockChain
+	mu    sync.Mutex
+	added []*types.Block
+}
+
+func (c *procChain) HasBlockByHash(hash common.Hash) bool { return false }
+func (c *procChain) GenerateBlock(bh types.BlockHeader) *types.Block {
+	h := bh
+	return &types.Block{Header: &h}
+}
+func (c *procChain) AddBlockOnChain(b *types.Block) types.AddBlockResult {
+	c.mu.Lock()
+	defer c.mu.Unlock()
+	c.added = append(c.added, b)
+	return types.AddBlockSucc
+}
+func (c *procChain) blocks() []*types.Block {
+	c.mu.Lock()
+	defer c.mu.Unlock()
+	return append([]*types.Block{}, c.added...)
+}
+
+// waitFor polls cond (logical conditions of the node's own state) under a generous wall-clock
+// watchdog; false = the watchdog fired (inconclusive, never a verdict).
+func waitFor(cond func() bool, max time.Duration) bool {
+	deadline := time.Now().Add(max)
+	for !cond() {
+		if time.Now().After(deadline) {
+			return false
+		}
+		time.Sleep(time.Millisecond)
+	}
+	return true
+}
+
 type netStub struct {
 	net.NetworkServer
 	asked int
@@ -84,6 +123,10 @@ type Case struct {
 	// (fresh joined-group storage for this case); the member's genuine self-certified
 	// announcement is delivered right before its first own message. 0: all keys known.
 	LateKey int `json:"late_key,omitempty"`
+	// Proc: the messages enter through Processor.OnMessageVerify (hook H3e): the first Future
+	// ones before the node has verified the proposal (parked under the block hash, replayed when
+	// the party takes the block hash as id), the others afterwards.
+	Proc bool `json:"proc,omitempty"`
 }
 
 type group struct {
@@ -283,6 +326,9 @@ func runCase(r *mon.Run, g *group, c Case, rng *rand.Rand, ns *netStub) {
 		}
 	}
 	round := logical.VerifNewRound1(g.info, preBH, bh, &blockChainStub{}, g.dkg.IDs[0], future)
+	getShares := func() (map[string]groupsig.Signature, map[string]groupsig.Signature) {
+		return round.BlockShares(), round.BeaconShares()
+	}
 	fail := func(sig, what string) { r.Violation(sig, what, c) }
 	sfx := "" // cases that squat on a not yet known member key carry their own signatures
 	for _, m := range c.Msgs {
@@ -306,7 +352,8 @@ func runCase(r *mon.Run, g *group, c Case, rng *rand.Rand, ns *netStub) {
 			}
 			return cls
 		}
-		for idHex, s := range round.BlockShares() {
+		blockShares, beaconShares := getShares()
+		for idHex, s := range blockShares {
 			i, member := idIndex[idHex]
 			r.Count("share_set_entries_checked", 1)
 			if _, seen := blockBy[idHex]; !seen {
@@ -319,7 +366,7 @@ func runCase(r *mon.Run, g *group, c Case, rng *rand.Rand, ns *netStub) {
 				fail("C15:block-share-set:entry-not-valid-for-this-block:"+cls, fmt.Sprintf("%s: the block share set holds for member %d a value that is not that member's share over this block's hash (entered with a message of class %s)", at, i, cls))
 			}
 		}
-		for idHex, s := range round.BeaconShares() {
+		for idHex, s := range beaconShares {
 			i, member := idIndex[idHex]
 			r.Count("share_set_entries_checked", 1)
 			if _, seen := beaconBy[idHex]; !seen {
@@ -337,6 +384,79 @@ func runCase(r *mon.Run, g *group, c Case, rng *rand.Rand, ns *netStub) {
 		}
 	}
 
+	if c.Proc {
+		honest := map[int]bool{}
+		for _, m := range c.Msgs {
+			if m.Class == "honest" || m.Class == "duplicate" {
+				honest[m.From] = true
+			}
+		}
+		r.Guard("C15:processor", c, func() {
+			chain := &procChain{}
+			castKey := common.ToHex(common.Sha256(append([]byte("proposal key"), bhHash.Bytes()...)))
+			realKey := common.ToHex(bhHash.Bytes())
+			vp := logical.VerifNewParty(g.info, preBH, bh, chain, g.dkg.IDs[0], castKey)
+			getShares = vp.Shares
+			nf := minInt(c.Future, len(msgs))
+			for i := 0; i < nf; i++ { // (their side actions already ran above, in order)
+				vp.P.OnMessageVerify(msgs[i])
+			}
+			r.Count("proc_cases", 1)
+			r.Count("proc_messages_parked_before_proposal_verified", int64(vp.Parked(realKey)))
+			vp.AnnounceBlockHash()
+			if !waitFor(func() bool { return vp.Registered(realKey) || vp.Finished(realKey) }, 20*time.Second) {
+				r.Inconclusive("processor case %d/%d: the party did not take the block hash as id within 20 s", c.N, c.Seq)
+				return
+			}
+			for mi := nf; mi < len(msgs); mi++ {
+				if f := pre[mi]; f != nil {
+					f()
+				}
+				vp.P.OnMessageVerify(msgs[mi])
+				r.Count("messages_delivered", 1)
+				r.Count("class_"+c.Msgs[mi].Class, 1)
+				judge(fmt.Sprintf("processor: after message %d (%s from %d)", mi, c.Msgs[mi].Class, c.Msgs[mi].From), c.Msgs[:mi+1])
+			}
+			over := func() bool { return len(chain.blocks()) > 0 || !vp.Registered(realKey) }
+			if len(honest) >= g.k {
+				// the node's own bound: waitUntilDone gives a party 10 s
+				if !waitFor(over, 25*time.Second) {
+					r.Inconclusive("processor case %d/%d: party neither finalised nor ended within 25 s", c.N, c.Seq)
+					return
+				}
+			} else {
+				// no finalisation expected: let the replayed messages settle
+				var last string
+				waitFor(func() bool {
+					b, _ := getShares()
+					cur := fmt.Sprint(len(b), vp.Parked(realKey))
+					same := cur == last
+					last = cur
+					time.Sleep(20 * time.Millisecond)
+					return same
+				}, 2*time.Second)
+			}
+			time.Sleep(20 * time.Millisecond)
+			judge("processor: at the end", c.Msgs)
+			blocks := chain.blocks()
+			switch {
+			case len(blocks) > 0:
+				r.Count("recoveries", 1)
+				h := blocks[0].Header
+				sig, rnd := groupsig.DeserializeSign(h.Signature), groupsig.DeserializeSign(h.Random)
+				if sig == nil || rnd == nil || !groupsig.VerifySig(g.gpk, bhHash.Bytes(), *sig) || !groupsig.VerifySig(g.gpk, preRandom, *rnd) {
+					fail("C15:finalise:recovered-signature-invalid"+sfx, "processor: the finalised block's group signature / beacon does not verify under the group key")
+				} else {
+					r.Count("recoveries_valid", 1)
+					r.Count("proc_blocks_finalised", 1)
+				}
+			case len(honest) >= g.k:
+				b, be := getShares()
+				fail("C15:processor:threshold-of-valid-shares-not-finalised"+sfx, fmt.Sprintf("processor: valid shares from %d distinct members (k=%d; %d of the messages parked before the proposal was verified) were delivered through OnMessageVerify but the party ended without finalising the block (block shares held: %d, beacon shares held: %d)", len(honest), g.k, nf, len(b), len(be)))
+			}
+		})
+		return
+	}
 	panicked := r.Guard("C15:round1", c, func() {
 		if err := round.Start(); err != nil {
 			r.Count("start_errors", 1)
@@ -460,6 +580,13 @@ func genCase(rng *rand.Rand, n, k, seq int) Case {
 	c.Msgs = msgs
 	if rng.Intn(4) == 0 {
 		c.Future = 1 + rng.Intn(len(msgs))
+	}
+	// a third of the cases enter through the Processor (parked / direct verify messages)
+	if rng.Intn(3) == 0 {
+		c.Proc = true
+		if c.Future == 0 && rng.Intn(2) == 0 {
+			c.Future = 1 + rng.Intn(len(msgs))
+		}
 	}
 	return c
 }
